@@ -26,6 +26,12 @@ ASSUMPTIONS = [
     "segmentation(): one threshold per tested feature (lists of equal length, or a bare name + bare number for one feature); "
     "tested features are ordinary analytical features; the output name differs from every tested feature",
     "OR mode, row whose tested values are all NaN: nothing demanded beyond marker in {0,1} (the statement does not fix it)",
+    "pieces: a piece returned by split() is a track like any other, so segmentation() on it is judged by the same marker oracle "
+    "(values of the piece at that call) and split() of it by the same partition oracle; creating a feature on one piece (segmentation "
+    "with a new output name, createAnalyticalFeature) leaves the feature lists and values of the other pieces and of the source as "
+    "they were; the source split a second time gives the same partition",
+    "pieces: NOT demanded - the value a source observation shows in a slot that was overwritten through a piece (extract() shares the "
+    "Obs objects, the statement is silent); an empty last piece (last observation marked) takes no feature (documented error) and is skipped",
 ]
 
 
@@ -41,40 +47,45 @@ def _build(pts, times, feats):
     return gen.make_track(pts, times, dict(feats))
 
 
+def _records(pts, times, feats):
+    return [(pts[i][0], pts[i][1], pts[i][2], times[i], tuple(f[1][i] for f in feats)) for i in range(len(pts))]
+
+
 def _check_split(pts, times, feats, mname):
     """feats = ordered [(name, values)], one of them named mname with 0/1 entries."""
-    n = len(pts)
     names = [f[0] for f in feats]
-    markers = dict(feats)[mname]
-    marked = [v == 1 for v in markers]
-    orig = [(pts[i][0], pts[i][1], pts[i][2], times[i], tuple(f[1][i] for f in feats)) for i in range(n)]
-    index_of_time = {times[i]: i for i in range(n)}
-
+    marked = [v == 1 for v in dict(feats)[mname]]
     tr = _build(pts, times, feats)
     coll = split(tr, mname)
-    pieces = [coll.getTrack(j) for j in range(coll.size())]
+    _judge_pieces([coll.getTrack(j) for j in range(coll.size())], _records(pts, times, feats), names, marked)
 
+
+def _judge_pieces(pieces, orig, names, marked, pre="split"):
+    """pieces: the Track objects returned for a track whose observations are orig (records x, y, z, t, features;
+    unique t), whose features are `names` and whose marker reads `marked`.  Returns the index lists of the pieces."""
+    n = len(orig)
+    index_of_time = {orig[i][3]: i for i in range(n)}
     if not any(marked):
         if pieces:
-            raise Violation("split-unmarked-not-empty",
+            raise Violation(pre + "-unmarked-not-empty",
                             "no marked observation, yet %d piece(s) returned (sizes %s)" % (
                                 len(pieces), [p.size() for p in pieces]))
-        return
+        return []
 
     idx_pieces = []
     for j, p in enumerate(pieces):
         ids = []
         pnames = p.getListAnalyticalFeatures() if p.size() > 0 else names
         if list(pnames) != names:
-            raise Violation("split-features-lost", "piece %d lists features %s, track had %s" % (j, pnames, names))
+            raise Violation(pre + "-features-lost", "piece %d lists features %s, track had %s" % (j, pnames, names))
         for rec in gen.track_records(p):
             i = index_of_time.get(rec[3])
             if i is None:
-                raise Violation("split-foreign-obs", "piece %d holds an observation with a timestamp not in the track" % j)
+                raise Violation(pre + "-foreign-obs", "piece %d holds an observation with a timestamp not in the track" % j)
             o = orig[i]
             if not (same(rec[0], o[0]) and same(rec[1], o[1]) and same(rec[2], o[2])
                     and len(rec[4]) == len(o[4]) and all(same(a, b) for a, b in zip(rec[4], o[4]))):
-                raise Violation("split-obs-altered", "piece %d: observation %d is %r, was %r" % (j, i, rec, o))
+                raise Violation(pre + "-obs-altered", "piece %d: observation %d is %r, was %r" % (j, i, rec, o))
             ids.append(i)
         idx_pieces.append(ids)
 
@@ -82,20 +93,21 @@ def _check_split(pts, times, feats, mname):
     desc = "markers %s -> pieces %s" % ([int(m) for m in marked], idx_pieces)
     if flat != list(range(n)):
         if len(set(flat)) < len(flat):
-            raise Violation("split-obs-duplicated", desc)
+            raise Violation(pre + "-obs-duplicated", desc)
         if set(flat) != set(range(n)):
-            raise Violation("split-obs-lost", desc)
-        raise Violation("split-order", desc)
+            raise Violation(pre + "-obs-lost", desc)
+        raise Violation(pre + "-order", desc)
     for j, ids in enumerate(idx_pieces):
         last = j == len(idx_pieces) - 1
         if not ids:
             if not last:
-                raise Violation("split-empty-piece", desc)
+                raise Violation(pre + "-empty-piece", desc)
             continue
         if any(marked[i] for i in ids[:-1]):
-            raise Violation("split-marker-inside-piece", desc)
+            raise Violation(pre + "-marker-inside-piece", desc)
         if not last and not marked[ids[-1]]:
-            raise Violation("split-piece-not-ending-on-marker", desc)
+            raise Violation(pre + "-piece-not-ending-on-marker", desc)
+    return idx_pieces
 
 
 def _marker_classes(marked):
@@ -370,6 +382,215 @@ def strat_chain():
         lambda p: {"vals": p[0], "thr": p[1]})
 
 
+# --- (vi) follow-up operations on the pieces returned by split ---------------------------------------
+# The pieces are Track objects of their own (extract() hands each of them a feature table of its own; the Obs objects
+# are shared with the source - that is how the unchanged code works and nothing here depends on it).  A history
+#     split -> [segmentation on the pieces | createAnalyticalFeature on one piece]* -> split of every piece on the new
+#     marker -> the source judged again
+# is generated; a model (feature names + values per piece) follows the operations and every call is judged against it.
+_NEW_OUT = ["submark", "#m2", "lvl2"]
+
+
+def _seg_args(names, out, thr, conv, mode):
+    if conv == "scalar":
+        args = [names[0], out, thr[0]]
+    elif conv == "mixed":
+        args = [[names[0]], out, thr[0]]
+    else:
+        args = [list(names), out, list(thr)]
+    if mode == 1:
+        args.append(MODE_COMPARAISON_AND)
+    elif mode == 2:
+        args.append(MODE_COMPARAISON_OR)
+    return args
+
+
+def _judge_marker(piece, pm, op, label):
+    """segmentation(op) has just run on `piece` (model pm = {'names': [...], 'vals': {name: [...]}}): marker oracle on
+    the values the piece held AT THAT CALL, then the model takes the marker over."""
+    names, thr, out, mode_or = op["names"], op["thr"], op["out"], op["mode"] == 2
+    m = len(pm["ids"])
+    if not piece.hasAnalyticalFeature(out) or out not in piece.getListAnalyticalFeatures():
+        raise Violation("seg-no-output", "%s: feature %r missing after segmentation" % (label, out))
+    got = piece.getAnalyticalFeature(out)
+    if len(got) != m:
+        raise Violation("seg-no-output", "%s: marker has %d entries for %d observations" % (label, len(got), m))
+    col = []
+    for i in range(m):
+        row = [pm["vals"][c][i] for c in names]
+        g = got[i]
+        if not (isinstance(g, (int, float)) and (g == 0 or g == 1)):
+            raise Violation("seg-marker-not-01", "%s row %d: marker %r" % (label, i, g))
+        want = _want_marker(row, thr, mode_or)
+        if want is not None and g != want:
+            raise Violation("seg-marker-wrong-on-piece", "%s row %d: values %s thresholds %s mode %s -> marker %r, expected %d" % (
+                label, i, row, thr, "OR" if mode_or else "AND", g, want))
+        col.append(int(g))
+    if out not in pm["names"]:
+        pm["names"].append(out)
+    pm["vals"][out] = col
+
+
+def _piece_records(orig, pm):
+    return [orig[i][:4] + (tuple(pm["vals"][c][j] for c in pm["names"]),) for j, i in enumerate(pm["ids"])]
+
+
+def _judge_piece_state(piece, orig, pm, label):
+    if list(piece.getListAnalyticalFeatures()) != pm["names"]:
+        raise Violation("piece-feature-list-wrong", "%s lists features %s, expected %s" % (
+            label, piece.getListAnalyticalFeatures(), pm["names"]))
+    want = _piece_records(orig, pm)
+    got = gen.track_records(piece)
+    if len(got) != len(want) or not all(
+            all(same(a, b) for a, b in zip(g[:4], w[:4])) and len(g[4]) == len(w[4]) and all(same(a, b) for a, b in zip(g[4], w[4]))
+            for g, w in zip(got, want)):
+        raise Violation("piece-obs-altered", "%s holds %r, expected %r" % (label, got, want))
+
+
+def body_pieces(case):
+    mk = case["markers"]
+    n = len(mk)
+    times, t = [], T0
+    for st_ in case["steps"]:
+        times.append(t)
+        t += st_
+    pts = [tuple(q) for q in case["pts"]]
+    mname = case["name"]
+    feats = [(nm, list(vals)) for nm, vals in case["others"]]
+    feats.insert(case["pos"], (mname, [float(v) if case["float"] else int(v) for v in mk]))
+    feats += [(nm, list(vals)) for nm, vals in case["tested"]]
+    names0 = [f[0] for f in feats]
+    marked = [v == 1 for v in mk]
+    orig = _records(pts, times, feats)
+    cls = ["via=" + case["via"]]
+
+    src = _build(pts, times, feats)
+    if case["via"] == "split":
+        coll = split(src, mname)
+    else:
+        from tracklib.core.track_collection import TrackCollection
+        coll = TrackCollection([src]).split_segmentation(mname)
+    pieces = [coll.getTrack(j) for j in range(coll.size())]
+    idx = _judge_pieces(pieces, orig, names0, marked)
+    pms = [{"ids": ids, "names": list(names0), "vals": {c: [dict(feats)[c][i] for i in ids] for c in names0}} for ids in idx]
+    live = [j for j in range(len(pieces)) if idx[j]]                 # an empty last piece takes no feature (documented error)
+    if len(idx) > len(live):
+        cls.append("empty-last-piece-skipped")
+    cls.append("pieces=%s" % ("0" if not live else "1" if len(live) == 1 else "2+"))
+
+    overwritten = set()                                                  # names of the source whose slots were written through a piece
+    newseg = 0
+    for k, op in enumerate(case["ops"]):
+        if not live:
+            break
+        if op["op"] == "create":
+            j = live[op["piece"] % len(live)]
+            pieces[j].createAnalyticalFeature(op["name"], op["val"])
+            if op["name"] not in pms[j]["names"]:                        # an existing name: documented no-op
+                pms[j]["names"].append(op["name"])
+                pms[j]["vals"][op["name"]] = [op["val"]] * len(idx[j])
+                cls.append("create-new-on-piece")
+            else:
+                cls.append("create-existing-on-piece")
+            _judge_piece_state(pieces[j], orig, pms[j], "op %d create, piece %d" % (k, j))
+            continue
+        out = op["out"]
+        sel = {"all": live, "rev": live[::-1], "odd": live[1::2] or live[:1], "first": live[:1]}[op["which"]]
+        args = _seg_args(op["names"], out, op["thr"], op["conv"], op["mode"])
+        fresh = [j for j in sel if out not in pms[j]["names"]]
+        if op["how"] == "collection":
+            from tracklib.core.track_collection import TrackCollection
+            TrackCollection([pieces[j] for j in sel]).segmentation(*args)
+            for j in sel:
+                _judge_marker(pieces[j], pms[j], op, "op %d collection.segmentation, piece %d of %d" % (k, j, len(pieces)))
+        else:
+            for j in sel:
+                segmentation(pieces[j], *args)
+                _judge_marker(pieces[j], pms[j], op, "op %d segmentation, piece %d of %d" % (k, j, len(pieces)))
+        if out in names0:
+            overwritten.add(out)
+        cls.append("seg-%s-out-%s-on-%s" % (op["how"], "existing" if len(fresh) < len(sel) else "new",
+                                            "1-piece" if len(sel) == 1 else "2+pieces"))
+        if len(fresh) >= 2:
+            newseg += 1
+        # every piece: nothing else moved; then the piece is split on the marker it just received
+        for j in live:
+            _judge_piece_state(pieces[j], orig, pms[j], "after op %d, piece %d" % (k, j))
+        for j in sel:
+            sub = split(pieces[j], out)
+            _judge_pieces([sub.getTrack(i) for i in range(sub.size())], _piece_records(orig, pms[j]), pms[j]["names"],
+                          [v == 1 for v in pms[j]["vals"][out]], pre="split2")
+    # the source again: same feature list, same values (a slot written through a piece that shares its observations
+    # is not judged), and - marker untouched - the same partition from a second split of the same object
+    if list(src.getListAnalyticalFeatures()) != names0:
+        raise Violation("source-feature-list-changed", "source listed %s, now lists %s after operations on its pieces" % (
+            names0, src.getListAnalyticalFeatures()))
+    keep = [c for c in range(len(names0)) if names0[c] not in overwritten]
+    for g, w in zip(gen.track_records(src), orig):
+        if not (all(same(a, b) for a, b in zip(g[:4], w[:4])) and len(g[4]) == len(w[4])
+                and all(same(g[4][c], w[4][c]) for c in keep)):
+            raise Violation("source-obs-altered", "source observation %r, was %r (features %s)" % (g, w, names0))
+    if src.size() != n:
+        raise Violation("source-obs-altered", "source has %d observations, had %d" % (src.size(), n))
+    if mname not in overwritten and not overwritten:
+        again = split(src, mname)
+        _judge_pieces([again.getTrack(j) for j in range(again.size())], orig, names0, marked, pre="resplit")
+        cls.append("source-split-again")
+    if overwritten:
+        cls.append("source-slot-written-through-piece")
+    if newseg:
+        cls.append("new-output-on-2+pieces")
+    return {"nt": len(live) >= 2 and any(o["op"] == "seg" for o in case["ops"]), "cls": sorted(set(cls + _marker_classes(marked)))}
+
+
+@st.composite
+def strat_pieces(draw):
+    n = draw(st.integers(2, 20))
+    dens = draw(st.sampled_from([0, 10, 20, 30, 30, 50, 80]))
+    mk = [1 if (v * 61 + 17) % 100 < dens else 0 for v in draw(st.lists(st.integers(0, 99), min_size=n, max_size=n))]
+    edge = draw(st.sampled_from(["", "", "mid", "mid", "first", "last", "both"]))
+    if edge in ("first", "both"):
+        mk[0] = 1
+    if edge in ("last", "both"):
+        mk[-1] = 1
+    if edge == "mid":
+        mk[(n - 1) // 2] = 1
+    c = draw(st.lists(st.integers(-5, 5), min_size=n, max_size=n))
+    pts = [[float(c[i]), float(c[(i * 7 + 3) % n]), float(c[(i * 5 + 1) % n])] for i in range(n)]
+    steps = draw(st.lists(st.sampled_from([1, 1000, 1000, 60000]), min_size=n, max_size=n))
+    nother = draw(st.integers(0, 2))
+    pool = [-3, -1, 0, 1, 2, 1.0, NAN, 0.25]
+    others = []
+    for name in draw(st.permutations(["k", "w", "abs_curv", "alt"]))[:nother]:     # disjoint from _TESTED and _NAMES
+        ix = draw(st.lists(st.integers(0, len(pool) - 1), min_size=n, max_size=n))
+        others.append([name, [pool[j] for j in ix]])
+    mname = draw(st.sampled_from(_NAMES))
+    kt = draw(st.sampled_from([1, 1, 2]))
+    tnames = list(draw(st.permutations(_TESTED))[:kt])
+    tthr = [draw(st.sampled_from(_LATTICE[2:8])) for _ in range(kt)]
+    ix = draw(st.lists(st.integers(0, 23), min_size=n * kt, max_size=n * kt))
+    tested = [[tnames[c], [_cell(ix[i * kt + c], tthr[c]) for i in range(n)]] for c in range(kt)]
+    existing = [mname] + [o[0] for o in others]
+    ops = []
+    for _ in range(draw(st.sampled_from([1, 1, 2, 2, 3]))):
+        if draw(st.integers(0, 4)) == 0:
+            ops.append({"op": "create", "piece": draw(st.integers(0, 5)),
+                        "name": draw(st.sampled_from(_NEW_OUT + ["extra"] + existing)), "val": draw(st.sampled_from([0, 0.0, 7, -1.5]))})
+            continue
+        k = draw(st.integers(1, kt))
+        cols = sorted(draw(st.permutations(list(range(kt))))[:k])
+        ops.append({"op": "seg", "how": draw(st.sampled_from(["direct", "direct", "collection"])),
+                    "which": draw(st.sampled_from(["all", "all", "all", "rev", "odd", "first"])),
+                    "names": [tnames[c] for c in cols],
+                    "thr": [draw(st.sampled_from([tthr[c], tthr[c], tthr[c] + 0.5, tthr[c] - 1])) for c in cols],
+                    "mode": draw(st.sampled_from([0, 1, 2])),
+                    "conv": draw(st.sampled_from(["list", "scalar", "mixed"])) if k == 1 else "list",
+                    "out": draw(st.sampled_from(_NEW_OUT + _NEW_OUT + existing))})
+    return {"pts": pts, "steps": steps, "markers": mk, "name": mname, "pos": draw(st.integers(0, nother)),
+            "float": draw(st.booleans()), "others": others, "tested": tested,
+            "via": draw(st.sampled_from(["split", "split", "split_segmentation"])), "ops": ops}
+
+
 RULE = ("markers: every 0/1 marker vector of length 1..12 (8190), each run with 4 feature layouts (marker feature "
         "first/middle/last/alone, int or float values, 4 names); split_random: Hypothesis, 1..60 observations, marker density "
         "0..1 with forced first/last markers, repeated positions, 0..3 other features; seg_grid: for 1..3 tested features, "
@@ -377,7 +598,8 @@ RULE = ("markers: every 0/1 marker vector of length 1..12 (8190), each run with 
         "(4^k rows), margins 0.5 and 2^-20; seg_random: Hypothesis on a half-integer lattice with NaN, values equal to the "
         "threshold, 1..12 rows; chain: segmentation() then split() on its marker. "
         "Non-trivial: split - at least one marked observation (the unmarked case is the documented empty result); "
-        "segmentation - some tested value equals its threshold, or is NaN, or AND and OR modes disagree on some row. "
+        "segmentation - some tested value equals its threshold, or is NaN, or AND and OR modes disagree on some row; "
+        "pieces - at least two non-empty pieces and a segmentation among the operations. "
         "Distinct = hash of the case.")
 
 # coverage-guided stage of the thorough tier (vt/fuzz.py): sub-check -> libFuzzer executions
@@ -389,4 +611,6 @@ SUBCHECKS = [
     SubCheck("seg_grid", _check_seg, enum=enum_grid, rule="all below/equal/above/NaN patterns, k=1..3", qshards=2, tshards=2),
     SubCheck("seg_random", _check_seg, strategy=strat_seg, quick=6000, thorough=120000, qshards=6),
     SubCheck("chain", body_chain, strategy=strat_chain, quick=1500, thorough=30000),
+    SubCheck("pieces", body_pieces, strategy=strat_pieces, quick=3000, thorough=60000, qshards=6,
+             rule="split, then segmentation / createAnalyticalFeature on the pieces, split of the pieces, source judged again"),
 ]
